@@ -48,6 +48,8 @@ class TaskGroup(TaskConstraint):
         u_id = uuid.uuid4().int
         self._start = z3.Int(f"task_group_start_{u_id}")
         self._end = z3.Int(f"task_group_end_{u_id}")
+        # a group can be used in a TaskPrecedence in place of a task
+        self._scheduled = True
 
         if self.time_interval is not None:
             self._scheduled_assertion = [
